@@ -566,7 +566,17 @@ def _saved_restored(p, dfn, ufn, cm, fld):
             if e.get('ref', {}).get('n') == q:
                 saves.append(n)
     if not saves:
-        return False, 'old value is not saved into a local before being overwritten'
+        # ... or the record is built first: the field itself is an argument of a create_moveinfo call made before every write
+        slot = None
+        for n, cfid, nm in dfn.calls():
+            if nm == cm.name:
+                for i, a in enumerate(kids(n)[1:]):
+                    if strip_casts(a).get('ref', {}).get('n') == q and all(dfn.cfg.node_dominates(n, w) for w in writes) and \
+                            not any(dfn.cfg.path_avoiding(dfn.cfg.position(w), set(), {n['i']}) is not None for w in writes):
+                        slot = cm.params[i]['name']
+        if slot is None:
+            return False, 'old value is not saved into a local before being overwritten'
+        return _restored(p, ufn, fld, setter, slot, 'read into the record before the first write')
     sv = saves[0]
     dstmt = dfn.parent(sv)
     if not all(dfn.cfg.node_dominates(dstmt, w) for w in writes):
@@ -583,21 +593,33 @@ def _saved_restored(p, dfn, ufn, cm, fld):
                     slot = cm.params[i]['name']
     if slot is None:
         return False, 'the saved value is not passed to create_moveinfo'
+    return _restored(p, ufn, fld, setter, slot, 'saved in `%s` before the first write' % sv['name'])
+
+
+def _restored(p, ufn, fld, setter, slot, how):
+    from rules.effects import single_def as _sd
     acc = {'last_castling': 'last_castling', 'last_enpassant': 'last_enpassant_square',
            'half_move_counter': 'half_move_counter', 'captured': 'captured_piece', 'enpassant': 'enpassant'}.get(slot)
-    # restoration in ufn
+    # restoration in ufn (directly from the accessor, or through a local that holds its value)
+    def through(v):
+        r_ = (v.get('ref') or {}) if v is not None else {}
+        if r_.get('k') == 'Local':
+            d_ = _sd(ufn, r_['id'])
+            if d_ is not None:
+                return strip_casts(d_)
+        return v
     restored = False
     for f, n, k in p.field_accesses(POS, fld):
         if f is ufn and k == 'write':
-            v = strip_casts(written_value(ufn, n))
+            v = through(strip_casts(written_value(ufn, n)))
             if v is not None and v.get('callee', {}).get('n') == 'engine::' + acc:
                 restored = _once_every_path(ufn, [n])
     if setter:
         for n, cfid, nm in ufn.calls():
             if nm == setter:
-                a = strip_casts(kids(n)[1])
+                a = through(strip_casts(kids(n)[1]))
                 if a.get('callee', {}).get('n') == 'engine::' + acc:
                     restored = _once_every_path(ufn, [n])
     if not restored:
         return False, 'undo does not assign it from %s(moveinfo) on every path' % acc
-    return True, 'saved in `%s` before the first write, packed as `%s`, restored from %s(moveinfo)' % (sv['name'], slot, acc)
+    return True, '%s, packed as `%s`, restored from %s(moveinfo)' % (how, slot, acc)
